@@ -312,4 +312,83 @@ theorem C13_one_text_per_meaning (f g : FieldA) (hf : f.WF) (hg : g.WF) :
     (outTree f).text = (outTree g).text ↔ (SameEntries f.view g.view ∧ f.substvars.Perm g.substvars) :=
   ⟨C13_text_determines_meaning f g hf hg, fun h => C13_order_independent f g hf hg h.1 h.2⟩
 
+/-! ## non-vacuity -/
+
+/-- the example field of `Props/C13.lean`, reordered (entries, alternatives) and re-spaced:
+    ` x (<< 0) ,${shlibs:Depends},  g++\n |libc6:any (>=1:2.3~rc1-4) [amd64 !i386] <!nocheck stage1> <cross>` -/
+def ex2 : FieldA :=
+  ⟨[ ⟨[.ws [' ']], .alts ⟨['x'], none, some ⟨[.ws [' ']], [], .LessThan, [.ws [' ']], ⟨none, ['0']⟩, []⟩, none, []⟩ [],
+        [.ws [' ']]⟩,
+     ⟨[], .substvar "shlibs".toList ["Depends".toList], []⟩,
+     ⟨[.ws [' ', ' ']], .alts ⟨"g++".toList, none, none, none, []⟩
+        [⟨[.nl, .ws [' ']], [],
+          ⟨"libc6".toList, some "any".toList,
+            some ⟨[.ws [' ']], [], .GreaterThanEqual, [], ⟨some ['1'], "2.3~rc1-4".toList⟩, []⟩,
+            some ⟨[.ws [' ']], [⟨[], false, "amd64".toList⟩, ⟨[.ws [' ']], true, "i386".toList⟩], []⟩,
+            [⟨[.ws [' ']], [⟨[], true, "nocheck".toList⟩, ⟨[.ws [' ']], false, "stage1".toList⟩], []⟩,
+             ⟨[.ws [' ']], [⟨[], false, "cross".toList⟩], []⟩]⟩⟩], []⟩ ]⟩
+
+example : ex2.str =
+    " x (<< 0) ,${shlibs:Depends},  g++\n |libc6:any (>=1:2.3~rc1-4) [amd64 !i386] <!nocheck stage1> <cross>".toList := by
+  decide +kernel
+
+theorem ex2_wf : ex2.WF := by decide +kernel
+
+/-- the two fields are different texts with their entries and alternatives in different orders … -/
+example : ex.str ≠ ex2.str ∧ ex.view ≠ ex2.view := by decide +kernel
+
+def rLibc : RV :=
+  ⟨"libc6".toList, some "any".toList, some ["amd64".toList, "!i386".toList],
+    some (.GreaterThanEqual, ⟨some 1, "2.3~rc1".toList, some ['4']⟩),
+    [[.Disabled "nocheck".toList, .Enabled "stage1".toList], [.Enabled "cross".toList]]⟩
+def rGpp : RV := ⟨"g++".toList, none, none, none, []⟩
+def rX : RV := ⟨['x'], none, none, some (.LessThan, ⟨none, ['0'], none⟩), []⟩
+
+theorem ex_view : ex.view = [[rLibc, rGpp], [rX]] := by decide +kernel
+theorem ex2_view : ex2.view = [[rX], [rGpp, rLibc]] := by decide +kernel
+
+/-- … but the same dependencies -/
+theorem ex_same : SameEntries ex.view ex2.view ∧ ex.substvars.Perm ex2.substvars := by
+  have h3 : ex.substvars = ex2.substvars := by decide +kernel
+  refine ⟨?_, h3 ▸ List.Perm.refl _⟩
+  rw [ex_view, ex2_view]
+  exact ⟨[[rX], [rLibc, rGpp]], List.Perm.swap _ _ _,
+    .cons (List.Perm.refl _) (.cons (List.Perm.swap _ _ _) .nil)⟩
+
+/-- so they are normalised to the same text -/
+example : (outTree ex).text = (outTree ex2).text :=
+  C13_order_independent ex ex2 ex_wf ex2_wf ex_same.1 ex_same.2
+
+example : ∃ o₁ o₂, relationsWrap ex.tree = .ok o₁ ∧ relationsWrap ex2.tree = .ok o₂ ∧ o₁.text = o₂.text :=
+  C13_order_independent_calls ex ex2 ex_wf ex2_wf ex_same.1 ex_same.2
+
+example : (ex.view.map sortRels).Perm (ex2.view.map sortRels) :=
+  (sameEntries_iff_perm_sortRels (view_validEntry ex ex_wf)).1 ex_same.1
+
+/-- the order of substitution variables: `${b}, a, ${a}` and `a,${a} , ${b}` -/
+def exS1 : FieldA :=
+  ⟨[⟨[], .substvar ['b'] [], []⟩, ⟨[.ws [' ']], .alts ⟨['a'], none, none, none, []⟩ [], []⟩,
+    ⟨[.ws [' ']], .substvar ['a'] [], []⟩]⟩
+def exS2 : FieldA :=
+  ⟨[⟨[], .alts ⟨['a'], none, none, none, []⟩ [], []⟩, ⟨[], .substvar ['a'] [], [.ws [' ']]⟩,
+    ⟨[.ws [' ']], .substvar ['b'] [], []⟩]⟩
+
+example : exS1.str = "${b}, a, ${a}".toList ∧ exS2.str = "a,${a} , ${b}".toList := by decide +kernel
+
+example : (outTree exS1).text = (outTree exS2).text := by
+  refine C13_order_independent exS1 exS2 (by decide +kernel) (by decide +kernel) ?_ ?_
+  · have : exS1.view = exS2.view := by decide +kernel
+    rw [this]; exact SameEntries.refl _
+  · have h1 : exS1.substvars = ["${b}".toList, "${a}".toList] := by decide +kernel
+    have h2 : exS2.substvars = ["${a}".toList, "${b}".toList] := by decide +kernel
+    rw [h1, h2]; exact List.Perm.swap _ _ _
+
+/-- the hypotheses of `C13_text_determines_meaning` are satisfiable (by the pair above) -/
+example : SameEntries ex.view ex2.view ∧ ex.substvars.Perm ex2.substvars :=
+  C13_text_determines_meaning ex ex2 ex_wf ex2_wf
+    (C13_order_independent ex ex2 ex_wf ex2_wf ex_same.1 ex_same.2)
+
+/-- different meanings, different texts: `a | b` and `a, b` -/
+example : ¬ SameEntries [[1, 2]] [[1], [2]] := fun h => by simpa using h.length_eq
+
 end Deb822Verif.Props.C13
